@@ -300,6 +300,18 @@ func streamParse(o *Out, r *rand.Rand, n int, thorough bool) {
 			checkInt(fmt.Sprintf("-0b%b", -v), v, false)
 		}
 	}
+	// decimal spellings with leading zeros denote the decimal number (there are no octal literals)
+	for _, v := range []int64{0, 1, 7, 8, 9, 10, 17, 19, 77, 88, 100, 644, 755, 777, 4095, 1234567} {
+		checkInt("0"+fmt.Sprint(v), v, false)
+		checkInt("00"+fmt.Sprint(v), v, false)
+		if v > 0 {
+			checkInt("-0"+fmt.Sprint(v), -v, false)
+		}
+	}
+	for i := 0; i < n/8; i++ {
+		v := int64(r.Intn(1 << 30))
+		checkInt(strings.Repeat("0", 1+r.Intn(3))+fmt.Sprint(v), v, false)
+	}
 	checkInt("9223372036854775808", 0, true)
 	checkInt("-9223372036854775809", 0, true)
 	checkInt("0x8000000000000000", 0, true)
